@@ -213,9 +213,12 @@ class RegModel:
     def op_open_tx_pipe(self, addr):
         if len(addr) > 5:
             return "oversize-address"
-        if self.lite or self.r[EN_AA] & 1:
-            self._overlay(RX_ADDR_P0, addr)
         self._overlay(TX_ADDR, addr)
+        if self.lite or self.r[EN_AA] & 1:
+            # "RX pipe 0 is appropriated with the TX address": the whole address in effect
+            self.r[RX_ADDR_P0] = self.r[TX_ADDR]
+            if (self.r[CONFIG] & 3) == 2:
+                self.r[EN_RXADDR] |= 1  # in TX mode the ACK pipe is open (C08 statement)
         return OK
 
     def op_listen(self, rx):
